@@ -329,3 +329,72 @@ func init() {
 	})
 	_ = strings.HasPrefix
 }
+
+// ---- ContinuousVestingAccount schedule arithmetic (x/auth/vesting/types/vesting_account.go, v0.46.10) ----
+
+type cvaView struct{ ov, dv, start, end *Term }
+
+func cvaOf(c *LibCtx, v *Val) (cvaView, bool) {
+	at := c.x.authTypes()
+	if v.K == VPtr {
+		c.x.nilCheck(c.fr, c.st, c.in, v)
+		v = c.x.loadNoCheck(c.st, v)
+	}
+	if v.K != VStruct {
+		return cvaView{}, false
+	}
+	bp := getField(v, "BaseVestingAccount")
+	c.x.nilCheck(c.fr, c.st, c.in, bp)
+	bva := c.st.loadObj(at.bva, bp.T, "", at.bva)
+	return cvaView{ov: getField(bva, "OriginalVesting").T, dv: getField(bva, "DelegatedVesting").T, start: getField(v, "StartTime").T, end: getField(bva, "EndTime").T}, true
+}
+
+func vestedAmount(ov, start, end, tUnix *Term) *Term {
+	x := Sub(tUnix, start)
+	y := Sub(end, start)
+	s := ChopRound(TQuo(Mul(Mul(Mul(x, P18), P18), P18), Mul(y, P18)))
+	mid := ChopRound(ChopRound(Mul(Mul(ov, P18), s)))
+	return Ite(Le(tUnix, start), Num(0), Ite(Ge(tUnix, end), ov, mid))
+}
+
+func init() {
+	C := "(" + pVestT + ".ContinuousVestingAccount)."
+	vested := func(c *LibCtx, cv cvaView, t *Term) *Term {
+		tU := DivC(t, Num(1000000000))
+		return coinsPointwise(c, "vested", func(d *Term) *Term { return vestedAmount(Select(cv.ov, d), cv.start, cv.end, tU) })
+	}
+	vesting := func(c *LibCtx, cv cvaView, t *Term) *Term {
+		ve := vested(c, cv, t)
+		r := coinsPointwise(c, "vesting", func(d *Term) *Term { return Sub(Select(cv.ov, d), Select(ve, d)) })
+		c.panicIf(Not(coinsAllGE0(r)), "Coins.Sub-negative-result")
+		return r
+	}
+	reg(C+"GetVestedCoins", func(c *LibCtx, a []*Val) *Val {
+		cv, ok := cvaOf(c, a[0])
+		if !ok {
+			c.x.note("GetVestedCoins on an unmodelled receiver")
+			return coinsVal(Const(freshName("coins"), sortStrArrInt), c.resType(0))
+		}
+		return coinsVal(vested(c, cv, a[1].T), c.resType(0))
+	})
+	reg(C+"GetVestingCoins", func(c *LibCtx, a []*Val) *Val {
+		cv, ok := cvaOf(c, a[0])
+		if !ok {
+			c.x.note("GetVestingCoins on an unmodelled receiver")
+			return coinsVal(Const(freshName("coins"), sortStrArrInt), c.resType(0))
+		}
+		return coinsVal(vesting(c, cv, a[1].T), c.resType(0))
+	})
+	reg(C+"LockedCoins", func(c *LibCtx, a []*Val) *Val {
+		cv, ok := cvaOf(c, a[0])
+		if !ok {
+			c.x.note("LockedCoins on an unmodelled receiver")
+			return coinsVal(Const(freshName("coins"), sortStrArrInt), c.resType(0))
+		}
+		vg := vesting(c, cv, a[1].T)
+		return coinsVal(coinsPointwise(c, "locked", func(d *Term) *Term {
+			v, dv := Select(vg, d), Select(cv.dv, d)
+			return Sub(v, Ite(Le(v, dv), v, dv))
+		}), c.resType(0))
+	})
+}
